@@ -189,11 +189,23 @@ func (k *c18) r1(fns []*ssa.Function, wide bool) {
 				}
 				tainted, evs := k.al.Run(fn, shared)
 				var bad []string
+				handoffs := 0
 				for _, e := range evs {
 					if e.Kind == effects.EvReturn {
 						continue
 					}
+					// ownership hand-off: the filled buffer is given away and the loop variable is
+					// re-bound to a fresh allocation before the next fill (go h(buf[:n]); buf = make(…))
+					if c18HandedOff(L, f.buf, e.Instr) {
+						handoffs++
+						continue
+					}
 					bad = append(bad, fmt.Sprintf("%s at %s", e.What, k.pos(e.Instr)))
+				}
+				if len(bad) == 0 && handoffs > 0 {
+					k.r.OK(rule, construct, k.pos(f.call),
+						fmt.Sprintf("the filled buffer is handed off at %d place(s) and the loop variable is re-bound to a fresh allocation on every path from there to the next iteration: no iteration writes a buffer it gave away", handoffs))
+					return
 				}
 				if len(bad) == 0 {
 					k.r.OK(rule, construct, k.pos(f.call),
@@ -633,4 +645,70 @@ func uniqStrings(in []string) []string {
 		}
 	}
 	return out
+}
+
+// c18HandedOff: buf is the loop-header φ of the buffer variable, at is the
+// instruction that lets a value aliasing it escape; on every back edge that can
+// be reached from at without leaving the loop, the φ receives a buffer freshly
+// allocated after at (never the φ itself or anything older).
+func c18HandedOff(L *effects.Loop, buf ssa.Value, at ssa.Instruction) bool {
+	phi, ok := buf.(*ssa.Phi)
+	if !ok || phi.Block() != L.Header || at == nil || !L.Blocks[at.Block()] {
+		return false
+	}
+	// blocks reachable from at inside the loop, not passing through the header
+	reach := map[*ssa.BasicBlock]bool{at.Block(): true}
+	work := []*ssa.BasicBlock{at.Block()}
+	for len(work) > 0 {
+		b := work[len(work)-1]
+		work = work[:len(work)-1]
+		for _, s := range b.Succs {
+			if s == L.Header || !L.Blocks[s] || reach[s] {
+				continue
+			}
+			reach[s] = true
+			work = append(work, s)
+		}
+	}
+	after := func(v ssa.Value) bool {
+		in, ok := v.(ssa.Instruction)
+		if !ok || !reach[in.Block()] {
+			return false
+		}
+		if in.Block() != at.Block() {
+			return true
+		}
+		ia, iv := -1, -1
+		for i, x := range in.Block().Instrs {
+			if x == at {
+				ia = i
+			}
+			if x == in {
+				iv = i
+			}
+		}
+		return ia >= 0 && iv > ia
+	}
+	fresh := func(v ssa.Value) bool {
+		switch x := v.(type) {
+		case *ssa.MakeSlice:
+			return after(x)
+		case *ssa.Slice:
+			if al, ok := x.X.(*ssa.Alloc); ok && al.Heap {
+				return after(al)
+			}
+		}
+		return false
+	}
+	n := 0
+	for i, pr := range L.Header.Preds {
+		if !L.Blocks[pr] || !reach[pr] {
+			continue
+		}
+		n++
+		if !fresh(phi.Edges[i]) {
+			return false
+		}
+	}
+	return n > 0
 }
